@@ -887,7 +887,7 @@ class Fxp():
                 val_dtype = np.int64 if self.signed else np.uint64
 
             # rounding and overflowing
-            new_val = self._round(val * conv_factor , method=self.config.rounding)
+            new_val = self._round(self._scale(val, conv_factor), method=self.config.rounding)
             new_val = self._overflow_action(new_val, val_min, val_max)
 
             # convert to array of val_dtype
@@ -923,8 +923,8 @@ class Fxp():
                 val_dtype = np.int64 if self.signed else np.uint64
             
             # rounding and overflowing
-            new_val_real = self._round(new_val_real * conv_factor, method=self.config.rounding)
-            new_val_imag = self._round(new_val_imag * conv_factor, method=self.config.rounding)
+            new_val_real = self._round(self._scale(new_val_real, conv_factor), method=self.config.rounding)
+            new_val_imag = self._round(self._scale(new_val_imag, conv_factor), method=self.config.rounding)
             new_val_real = self._overflow_action(new_val_real, val_min, val_max)
             new_val_imag = self._overflow_action(new_val_imag, val_min, val_max)
 
@@ -1154,6 +1154,15 @@ class Fxp():
         else:
             raise ValueError('{} is not a valid config for overflow!'.format(self.config.overflow))
         return val
+
+    def _scale(self, val, conv_factor):
+        scaled = val * conv_factor
+        if isinstance(conv_factor, float) and isinstance(scaled, (np.ndarray, np.generic)) and scaled.dtype.kind == 'f':
+            # negative n_frac: a non-zero (subnormal) value must not underflow to zero before rounding, floor and ceil depend on its sign
+            lost = (scaled == 0) & (val != 0)
+            if np.any(lost):
+                scaled = np.where(lost, np.copysign(np.finfo(scaled.dtype).tiny, val), scaled)
+        return scaled
 
     def _round(self, val, method='floor'):
         if isinstance(val, np.ndarray) and val.dtype == object and val.ndim > 0:
